@@ -34,7 +34,26 @@ def corpus():
             for rhs in ("b", z, big):
                 progs.append("fn g(a: %s, b: %s) {\n  println(\"start\")\n  a %s %s\n  println(\"after stmt\")\n  let _ = a %s %s\n  println(\"after let\")\n}\ng(%s, %s)\n"
                              % (ty, ty, op, rhs, op, rhs, big, z))
+    progs += CONTROL_FLOW
     return progs
+
+
+# control-flow shapes the jump / label rules of the optimizer see: empty blocks, catch-all arms, short-circuit operators,
+# break/continue, conditions consumed directly by a jump
+CONTROL_FLOW = [
+    "fn pick(c: bool) {\n  var r = \"then\"\n  if c { } else { r = \"else\" }\n  println(r)\n}\npick(true)\npick(false)\n",
+    "fn pick(c: bool) {\n  var r = \"skip\"\n  if c { r = \"then\" } else { }\n  println(r)\n}\npick(true)\npick(false)\n",
+    "fn pick(c: bool) {\n  var r = \"none\"\n  if not c { r = \"not\" }\n  println(r)\n}\npick(true)\npick(false)\n",
+    "let a = [0]\nfn step(a: array<int>) -> bool {\n  a[0] = a[0] + 1\n  a[0] < 4\n}\nwhile step(a) { }\nprintln(a[0])\n",
+    "let a = [0]\nfn step(a: array<int>) -> bool {\n  a[0] = a[0] + 1\n  a[0] >= 4\n}\nwhile not step(a) { }\nprintln(a[0])\n",
+    "fn m(x: int) = match x {\n  1 -> \"one\"\n  _ -> \"other\"\n}\nprintln(m(1))\nprintln(m(2))\n",
+    "fn m(x: bool) = match x {\n  true -> \"t\"\n  false -> \"f\"\n}\nprintln(m(true))\nprintln(m(false))\n",
+    "fn m(x: option<int>) = match x {\n  .some(1) -> \"one\"\n  .some(_) -> \"some\"\n  .none -> \"none\"\n}\nprintln(m(.some(1)))\nprintln(m(.some(5)))\nprintln(m(.none))\n",
+    "fn f(a: bool, b: bool) {\n  if a and b { println(\"and\") } else { println(\"nand\") }\n  if a or b { println(\"or\") } else { println(\"nor\") }\n}\nf(true, true)\nf(true, false)\nf(false, true)\nf(false, false)\n",
+    "fn f(n: int) {\n  var i = 0\n  var s = 0\n  while true {\n    i = i + 1\n    if i > n { break }\n    if i % 2 == 0 { continue }\n    s = s + i\n  }\n  println(s)\n}\nf(0)\nf(1)\nf(7)\n",
+    "fn f(x: int) -> string {\n  if x < 0 { return \"neg\" }\n  if x == 0 { return \"zero\" } else { }\n  if x < 10 { \"small\" } else if x < 100 { \"medium\" } else { \"large\" }\n}\nprintln(f(-1))\nprintln(f(0))\nprintln(f(5))\nprintln(f(50))\nprintln(f(500))\n",
+    "fn f(xs: array<int>) {\n  var n = 0\n  for x in xs {\n    if x > 2 { } else { n = n + 1 }\n  }\n  println(n)\n}\nf([1, 2, 3, 4])\nf([])\n",
+]
 
 
 def build_noopt():
